@@ -41,8 +41,9 @@ PROPS = {
         "assumptions": [
             "seqbag/alignment rows have pairwise distinct names (AddSequence renaming is covered by C01)",
             "fmt.Sprintf(\"%s_%d\") for frames 0..2 modelled as name ++ \"_\" ++ digit",
-            "TranslateByReference / CodonAlign clauses: model tied by correspondence; the two by-reference "
-            "clauses are Definitions (…_statement) checked per generated case by spec_ok, not proved",
+            "TranslateByReference / CodonAlign: model tied by correspondence; the by-reference clauses (gap-free rows = plain "
+            "translation, equal row lengths, frame-0 prefix) are theorems about the model (C05_byref_nogap, "
+            "C05_byref_rows_same_length, C05_byref_frame0); what the other rows receive opposite a gapped reference codon is per case",
         ],
     },
     "C04": {
@@ -184,7 +185,9 @@ PROPS = {
         "harness": [{"cmd": "c09", "n": {"quick": 700, "thorough": 20000}}],
         "rule": "all pairs of words over {A,C,G} up to length 3 (quick: a third of them chosen from the seed; thorough: "
                 "up to length 4, all 14 400 pairs) under rotating match/mismatch/affine-gap schemes, plus random DNA / "
-                "IUPAC / protein pairs of length 1-12 (half of them a mutated window of the other with an indel; "
+                "IUPAC / protein pairs of length 1-12 and 12-41 (half of them a mutated window of the other with an indel; a third with one to "
+                "three residues against a long sequence, a tenth constructed so that a weak match overwrites a gap running along the border; "
+                "decimal gap penalties; an aligner object reused after another scheme; empty sequences; "
                 "tryptophan-rich proteins so that long gaps pay off) under 8 schemes (DNAfull / BLOSUM62 or "
                 "match-mismatch; open in {-10,-2,-1}, extend in {-1,-1/2}), and the ATG variant; every observable "
                 "(score, both rows, starts, ends, the four counters, inputs after the call) is compared with the model, "
@@ -192,8 +195,12 @@ PROPS = {
                 "non-trivial = both sequences of length >= 2; distinct = distinct (pair, scheme, variant)",
         "nontrivial": lambda m: len(m.get("s1", "")) >= 2 and len(m.get("s2", "")) >= 2,
         "assumptions": [
-            "all scores are multiples of 1/2 and are carried multiplied by 2 as integers: float64 arithmetic is exact",
-            "optimality is checked per case against the Gotoh oracle (whose own optimality is a kept statement, not proved)",
+            "scores that are multiples of 1/2 are carried multiplied by 2 as integers (float64 arithmetic is then exact and the code "
+            "model predicts every observable); schemes with one decimal (-1.1 / -0.3) are carried multiplied by 20 and judged by the "
+            "specification only: rounded floats may break ties differently than the exact model",
+            "the Gotoh oracle is proved to dominate every valid alignment and to be attained by one; the code MODEL's reported score is "
+            "proved equal to it for all inputs (C09_aligner_score_is_gotoh); that the CODE agrees with its model, and that the returned "
+            "rows score exactly the reported score, is per case",
         ],
     },
     "C03": {
@@ -202,13 +209,15 @@ PROPS = {
                 "(FASTA, Phylip relaxed/strict/one-line/no-block/multi, Nexus, Clustal, Stockholm, partition; lengths "
                 "straddling the line widths) mutated by truncation at a random offset, single-byte mutation over "
                 "delimiter bytes, line deletion / duplication, token splices (keywords, brackets, CR, NUL, huge and "
-                "negative numbers), header-count lies, occasionally twice and with a non-ASCII character, under every "
+                "negative numbers), header-count lies, occasionally twice and with a non-ASCII character; Clustal files also assembled "
+                "token by token (keyword spellings, numeric / keyword names, tabs, CR LF, NUL, counts of every spelling, missing or "
+                "blank conservation lines, unequal blocks); FASTA residue lines replaced by blanks; under every "
                 "duplicate-name policy and forced alphabets; every call runs in a child process under a 3 s watchdog; "
                 "non-trivial = input of at least 4 bytes; distinct = distinct (format, options, input)",
         "nontrivial": lambda m: len(m.get("input", "")) >= 4,
         "assumptions": [
-            "only the FASTA lexer/parser is modelled (ASCII inputs; the lexers decode runes); the other parsers are "
-            "judged by the spec oracle on generated inputs only (bounded)",
+            "the FASTA and Clustal lexers/parsers are modelled (ASCII inputs; the lexers decode runes) and proved to terminate with "
+            "an error or a well-formed result; the other four parsers are judged by the spec oracle on generated inputs only (bounded)",
             "a hang is what the 3 s watchdog sees; os.Exit is recognised from the child's exit status and banner",
         ],
     },
@@ -224,8 +233,10 @@ PROPS = {
                 "distinct = distinct (configuration, alignment)",
         "nontrivial": lambda m: len(m.get("names", [])) >= 2 and m.get("L", 0) >= 11,
         "assumptions": [
-            "only the FASTA writer/parser is modelled (round trip proved for every line width); the other formats are "
-            "judged by the spec oracle on generated alignments (bounded)",
+            "FASTA (writer + parser) and Clustal (writer + lexer/parser) are modelled on both sides and their round trips proved; the "
+            "Phylip and Nexus writers are modelled and proved to round-trip through reference readers that are tied to the code's "
+            "parsers on every written file; Stockholm, PaML, compressed files, streams and format detection are judged by the spec "
+            "oracle on generated alignments (bounded)",
             "gzip/xz codecs are exercised through temporary files, not modelled",
         ],
     },
